@@ -219,7 +219,7 @@ func (e *engineA) finish() error {
 		n := e.cl.node(id)
 		// the operator restarts nodes that are down: stopped by a fault that
 		// could not restart them, or exited on their own
-		if (n.stopped || atomic.LoadInt32(&n.exited) != 0) && !n.crashed && !e.parked[id] {
+		if (n.isStopped() || atomic.LoadInt32(&n.exited) != 0) && !n.isCrashed() && !e.parked[id] {
 			if _, err := e.cl.start(id, n.dir); err != nil {
 				e.rc.emit(&ev.Rec{K: "restart-failed", Cid: e.cl.cid, Nid: id, Err: err.Error()})
 			}
@@ -239,7 +239,7 @@ func (e *engineA) finish() error {
 		// has undone) is started again
 		for _, id := range e.cl.nodeIDs() {
 			n := e.cl.node(id)
-			if atomic.LoadInt32(&n.exited) != 0 && !n.crashed && !n.stopped && revived[id] < 3 {
+			if atomic.LoadInt32(&n.exited) != 0 && !n.isCrashed() && !n.isStopped() && revived[id] < 3 {
 				revived[id]++
 				if _, err := e.cl.start(id, n.dir); err != nil {
 					e.rc.emit(&ev.Rec{K: "restart-failed", Cid: e.cl.cid, Nid: id, Err: err.Error()})
@@ -372,7 +372,7 @@ func (e *engineA) startClients(k int, ops map[string]int) {
 				}
 				// mostly talk to the node that last accepted an op (the leader)
 				var n *Node
-				if sticky != nil && !sticky.crashed && !sticky.stopped && rng.Intn(10) != 0 {
+				if sticky != nil && sticky.alive() && rng.Intn(10) != 0 {
 					n = sticky
 				} else {
 					n = live[rng.Intn(len(live))]
@@ -711,7 +711,7 @@ func (e *engineA) newNodeID(conf *raft.Config) uint64 {
 			continue
 		}
 		n := e.cl.node(id)
-		if n != nil && !n.stopped && !n.crashed && atomic.LoadInt32(&n.exited) == 0 {
+		if n != nil && !n.isStopped() && !n.isCrashed() && atomic.LoadInt32(&n.exited) == 0 {
 			// a removed node that is still running (or whose removal it has not
 			// learnt): reuse it as it is
 			return id
